@@ -292,22 +292,36 @@ def build_tbl(
         if len(argv) == 3:
             reject = yield from utils.strict_functional(metadata, argv[2])
 
+        def _apply(
+            fun: AS.Callable | AS.BuiltinFunction, arg: AS.StrictValue
+        ) -> AS.EvalContext:
+            # The function is called while the action is being executed, i.e.
+            # outside of any call expression that would translate host errors.
+            try:
+                return (
+                    yield from proc_functional(metadata, fun)(metadata, [arg])
+                )
+            except ArithmeticError as err:
+                raise error.UnsuspectedHangeulArithmeticError(
+                    metadata, f"산술 오류가 발생했습니다: {err}"
+                ) from None
+            except ValueError as err:
+                raise error.UnsuspectedHangeulValueError(
+                    metadata, f"잘못된 값을 주었습니다: {err}"
+                ) from None
+
         def _fn(do_IO: DoIO) -> AS.EvalContext:
             try:
                 arg = yield from do_IO(io_to_bind)
             except AS.UnsuspectedHangeulError as err:
                 if isinstance(reject, AS.Nil):
                     raise err
-                result = yield from proc_functional(metadata, reject)(
-                    metadata, [err.err]
-                )
+                result = yield from _apply(reject, err.err)
                 result = yield result
                 utils.check_type(metadata, [result], AS.IO)
                 return result
 
-            result = yield from proc_functional(metadata, resolve)(
-                metadata, [arg]
-            )
+            result = yield from _apply(resolve, arg)
             result = yield result
             utils.check_type(metadata, [result], AS.IO)
             return result
